@@ -324,6 +324,8 @@ def memory_state(doc):
             state.pop(n, None)
     for path, part in doc._Document__xmlparts.items():
         if part is not None and state.get(path, b"x") is not None:
+            if path not in state and getattr(part, "_XmlPart__tree", None) is None:
+                continue  # a wrapper for a member the package does not have (e.g. no settings.xml): nothing to read
             state[path] = part.serialize()
     return state
 
@@ -399,7 +401,91 @@ def open_source(src):
         return generate_document(src["spec"])
     if k == "decorated":
         return Document(io.BytesIO(decorated_package(src["base"])))
+    if k == "variant":
+        return Document(io.BytesIO(variant_package(src["base"], src["seed"])))
     raise KeyError(k)
+
+
+OFFICE_NS = "urn:oasis:names:tc:opendocument:xmlns:office:1.0"
+TABLE_NS = "urn:oasis:names:tc:opendocument:xmlns:table:1.0"
+
+
+def variant_package(base, seed):
+    """A legal document another producer could have written: `base` with optional elements left out
+    (children of office:meta, font-face declarations, automatic / master styles, sequence declarations,
+    the settings part) and, in spreadsheets, named ranges whose addresses are legal but not in the form
+    odfdo itself writes (base cell away from the range, table name quoted without need, absolute and
+    relative references mixed)."""
+    import random
+
+    rng = random.Random(f"variant/{base}/{seed}")
+    if base in TEMPLATES:
+        from odfdo import Document
+
+        buf = io.BytesIO()
+        Document(base).save(buf)
+        raw = buf.getvalue()
+    else:
+        raw = open(os.path.join(SAMPLES, base), "rb").read()
+    drop_settings = rng.random() < 0.3
+    out = io.BytesIO()
+    with zipfile.ZipFile(io.BytesIO(raw)) as zin, zipfile.ZipFile(out, "w", zipfile.ZIP_DEFLATED) as zout:
+        for info in zin.infolist():
+            data = zin.read(info)
+            name = info.filename
+            if name == "settings.xml" and drop_settings:
+                continue
+            if name == "META-INF/manifest.xml" and drop_settings:
+                root = etree.fromstring(data)
+                for e in list(root):
+                    if isinstance(e.tag, str) and e.get("{urn:oasis:names:tc:opendocument:xmlns:manifest:1.0}full-path") == "settings.xml":
+                        root.remove(e)
+                data = etree.tostring(root.getroottree(), xml_declaration=True, encoding="UTF-8")
+            elif name == "meta.xml":
+                root = etree.fromstring(data)
+                meta = root.find("{%s}meta" % OFFICE_NS)
+                if meta is not None:
+                    for e in list(meta):
+                        if rng.random() < 0.5:
+                            meta.remove(e)
+                data = etree.tostring(root.getroottree(), xml_declaration=True, encoding="UTF-8")
+            elif name in ("styles.xml", "content.xml"):
+                root = etree.fromstring(data)
+                for local in ("font-face-decls", "automatic-styles", "master-styles", "scripts"):
+                    e = root.find("{%s}%s" % (OFFICE_NS, local))
+                    if e is not None and len(e) == 0 and rng.random() < 0.5:
+                        root.remove(e)  # only empty containers: nothing may refer to what they held
+                if name == "content.xml":
+                    body = root.find("{%s}body" % OFFICE_NS)
+                    kind = body[0] if body is not None and len(body) else None
+                    if kind is not None and kind.tag == "{%s}spreadsheet" % OFFICE_NS:
+                        tables = [t for t in kind if t.tag == "{%s}table" % TABLE_NS]
+                        if tables:
+                            tn = tables[0].get("{%s}name" % TABLE_NS)
+                            q = "'" + tn.replace("'", "''") + "'"
+                            plain = tn if tn.isalnum() else q
+                            ne = kind.find("{%s}named-expressions" % TABLE_NS)
+                            if ne is None:
+                                ne = etree.SubElement(kind, "{%s}named-expressions" % TABLE_NS)
+                            forms = [
+                                (f"${plain}.$C$3", f"${plain}.$A$1:.$B$2"),  # base cell away from the range
+                                (f"${q}.$A$1", f"${q}.$A$1:.$B$2"),  # quoted without need
+                                (f"{plain}.A1", f"{plain}.A1:.B2"),  # relative references
+                                (f"${plain}.$B$2", f"${plain}.$B$2"),  # single cell
+                            ]
+                            for i, (bc, cr) in enumerate(forms):
+                                if rng.random() < 0.6:
+                                    nr = etree.SubElement(ne, "{%s}named-range" % TABLE_NS)
+                                    nr.set("{%s}name" % TABLE_NS, f"vfrange{i}")
+                                    nr.set("{%s}base-cell-address" % TABLE_NS, bc)
+                                    nr.set("{%s}cell-range-address" % TABLE_NS, cr)
+                    elif kind is not None:
+                        for e in list(kind):
+                            if isinstance(e.tag, str) and e.tag.rpartition("}")[2] in ("sequence-decls", "forms") and rng.random() < 0.5:
+                                kind.remove(e)
+                data = etree.tostring(root.getroottree(), xml_declaration=True, encoding="UTF-8")
+            zout.writestr(info, data, compress_type=zipfile.ZIP_STORED if name == "mimetype" else zipfile.ZIP_DEFLATED)
+    return out.getvalue()
 
 
 def decorated_package(base):
